@@ -6,6 +6,13 @@
 //   (3 body)                                audio body   -> (dec(body) enc(dec(body)) | x)
 //   (4 body)                                video body   -> likewise
 //   (5 v)   ToHz, OpusToHz, From, OpusFrom, AudioChannels.From of code v -> five (0 value) | (2)
+//   (6 op...)  HISTORY on one AudioPackager and one VideoPackager, ops
+//        (1 frame.. mut) (2 frame.. mut): Encode, the returned tag is KEPT (the slice itself);
+//             mut != 0: the caller flips the input frame's Raw in place after the call
+//        (3 body mut) (4 body mut): Decode of a private copy of body, the returned frame is KEPT;
+//             mut != 0: the caller flips the decoded Raw in place after the call
+//        everything is compared only after the last call: per op (tag-at-end dec(tag-at-end)) or
+//        (frame-at-end tag-prefix-at-end), tag-prefix = the caller's tag buffer before Raw
 // dec = (0 (fields... raw)) | (1 3) errDataNotEnough | (2) panic
 package flv
 
@@ -259,6 +266,190 @@ func vC10Run(k *vKit, c vSx) (obs vSx, fo, fd string, nontrivial bool) {
 			}
 		}
 		return vL(do, vB(re)), fo, fd, nontrivial
+	case 6:
+		type keptT struct {
+			kind   int
+			mut    bool
+			enc    []byte // as returned by Encode (not copied)
+			snap   []byte // copy taken when Encode returned
+			af     *AudioFrame
+			vf     *VideoFrame // the caller's frame values (private Raw copy)
+			da     *AudioFrame
+			dv     *VideoFrame // as returned by Decode
+			dsnap  vSx         // the decoded frame when Decode returned (after the caller's own flip)
+			dobs   vSx
+			tag    []byte // the caller's buffer handed to Decode
+			orig   []byte
+			rawLen int
+		}
+		flipb := func(b []byte) {
+			for i := range b {
+				b[i] = ^b[i]
+			}
+		}
+		var hist []*keptT
+		opus := 0
+		for _, op := range c.l[1:] {
+			if !op.isList() || len(op.l) < 3 {
+				return vL(vZ(-1)), "", "", false
+			}
+			kt := &keptT{kind: op.l[0].int(), mut: op.l[len(op.l)-1].i64() != 0}
+			switch kt.kind {
+			case 1:
+				if len(op.l) != 9 {
+					return vL(vZ(-1)), "", "", false
+				}
+				mk := func() *AudioFrame {
+					return &AudioFrame{SoundFormat: AudioCodec(op.l[1].u64()), SoundRate: AudioSamplingRate(op.l[2].u64()),
+						SoundSize: AudioSampleBits(op.l[3].u64()), SoundType: AudioChannels(op.l[4].u64()),
+						Trait: AudioFrameTrait(op.l[5].u64()), AudioLevel: uint16(op.l[6].u64()), Raw: append([]byte{}, op.l[7].b...)}
+				}
+				f := mk()
+				kt.af = mk()
+				if o := vGuard(func() vSx {
+					b, err := ap.Encode(f)
+					if err != nil {
+						return vErr(99)
+					}
+					kt.enc = b
+					return vB(b)
+				}); !o.isBytes() {
+					bad("no-panic", "audio Encode failed or panicked")
+				}
+				kt.snap = append([]byte{}, kt.enc...)
+				if kt.mut {
+					flipb(f.Raw)
+				}
+				if f.SoundFormat == AudioCodecOpus {
+					opus++
+				}
+				nontrivial = nontrivial || f.Trait != 0
+			case 2:
+				if len(op.l) != 7 {
+					return vL(vZ(-1)), "", "", false
+				}
+				mk := func() *VideoFrame {
+					return &VideoFrame{CodecID: VideoCodec(op.l[1].u64()), FrameType: VideoFrameType(op.l[2].u64()),
+						Trait: VideoFrameTrait(op.l[3].u64()), CTS: int32(op.l[4].i64()), Raw: append([]byte{}, op.l[5].b...)}
+				}
+				f := mk()
+				kt.vf = mk()
+				if o := vGuard(func() vSx {
+					b, err := vp.Encode(f)
+					if err != nil {
+						return vErr(99)
+					}
+					kt.enc = b
+					return vB(b)
+				}); !o.isBytes() {
+					bad("no-panic", "video Encode failed or panicked")
+				}
+				kt.snap = append([]byte{}, kt.enc...)
+				if kt.mut {
+					flipb(f.Raw)
+				}
+			case 3, 4:
+				kt.orig = op.l[1].b
+				kt.tag = append([]byte{}, kt.orig...)
+				if kt.kind == 3 {
+					kt.da, kt.dobs = vC10ADec(ap, kt.tag)
+					if kt.da != nil {
+						kt.rawLen = len(kt.da.Raw)
+						if kt.mut {
+							flipb(kt.da.Raw)
+						}
+						kt.dsnap = vOk(vC10AFrame(kt.da))
+					}
+				} else {
+					kt.dv, kt.dobs = vC10VDec(vp, kt.tag)
+					if kt.dv != nil {
+						kt.rawLen = len(kt.dv.Raw)
+						if kt.mut {
+							flipb(kt.dv.Raw)
+						}
+						kt.dsnap = vOk(vC10VFrame(kt.dv))
+					}
+				}
+				if vC10IsPanic(kt.dobs) {
+					bad("no-panic", "Decode panicked")
+				}
+			default:
+				return vL(vZ(-1)), "", "", false
+			}
+			hist = append(hist, kt)
+		}
+		// ---- end of history: only now look at what was kept
+		var out []vSx
+		aliased := false
+		for i, kt := range hist {
+			switch kt.kind {
+			case 1, 2:
+				if !bytes.Equal(kt.enc, kt.snap) {
+					bad("encode-result-stable", fmt.Sprintf("the tag returned by Encode call %d was %x and is %x after the later calls", i, kt.snap, kt.enc))
+				}
+				if kt.kind == 1 {
+					g, do := vC10ADec(ap, kt.enc)
+					if vC10IsPanic(do) {
+						bad("no-panic", "audio Decode panicked")
+					}
+					f := kt.af
+					if vC10AudioCanonical(f) && (g == nil || g.SoundFormat != f.SoundFormat || g.SoundRate != f.SoundRate || g.SoundSize != f.SoundSize ||
+						g.SoundType != f.SoundType || g.Trait != f.Trait || g.AudioLevel != f.AudioLevel || !bytes.Equal(g.Raw, f.Raw)) {
+						bad("history-roundtrip", fmt.Sprintf("the tag kept from Encode call %d decodes to %s at the end of the history, not to its own frame %s", i, do, vC10AFrame(f)))
+					}
+					out = append(out, vL(vB(kt.enc), do))
+				} else {
+					g, do := vC10VDec(vp, kt.enc)
+					if vC10IsPanic(do) {
+						bad("no-panic", "video Decode panicked")
+					}
+					f := kt.vf
+					if vC10VideoCanonical(f) && (g == nil || g.CodecID != f.CodecID || g.FrameType != f.FrameType || g.Trait != f.Trait || g.CTS != f.CTS || !bytes.Equal(g.Raw, f.Raw)) {
+						bad("history-roundtrip", fmt.Sprintf("the tag kept from Encode call %d decodes to %s at the end of the history, not to its own frame %s", i, do, vC10VFrame(f)))
+					}
+					out = append(out, vL(vB(kt.enc), do))
+				}
+			case 3, 4:
+				var now vSx
+				ok := false
+				if kt.kind == 3 && kt.da != nil {
+					now, ok = vOk(vC10AFrame(kt.da)), true
+				} else if kt.kind == 4 && kt.dv != nil {
+					now, ok = vOk(vC10VFrame(kt.dv)), true
+				}
+				if !ok {
+					out = append(out, vL(kt.dobs, vB(kt.tag)))
+					if !bytes.Equal(kt.tag, kt.orig) {
+						bad("decode-input", "a rejected tag buffer was modified")
+					}
+					continue
+				}
+				if now.String() != kt.dsnap.String() {
+					bad("decode-result-stable", fmt.Sprintf("the frame returned by Decode call %d was %s and is %s after the later calls", i, kt.dsnap, now))
+				}
+				pl := len(kt.tag) - kt.rawLen
+				if pl < 0 || pl > len(kt.tag) {
+					pl = len(kt.tag)
+					bad("decode-raw-tail", "the decoded Raw is longer than the tag")
+				}
+				if !bytes.Equal(kt.tag[:pl], kt.orig[:pl]) {
+					bad("decode-prefix", fmt.Sprintf("the caller's tag buffer of Decode call %d changed before the Raw part", i))
+				}
+				if !bytes.Equal(kt.tag[pl:], kt.orig[pl:]) {
+					aliased = true
+				}
+				out = append(out, vL(now, vB(kt.tag[:pl])))
+			}
+		}
+		if aliased {
+			k.count("history", "decoded-raw-shares-tag-tail")
+		}
+		k.count("history", fmt.Sprintf("len-%d", len(hist)))
+		if opus >= 2 {
+			k.count("history", "two-or-more-opus-encodes")
+			nontrivial = true
+		}
+		return vLs(out), fo, fd, nontrivial
 	case 5:
 		v := uint8(c.l[1].u64())
 		one := func(f func() int) vSx {
@@ -381,7 +572,54 @@ func vC10Sweep(k *vKit) []vSx {
 	return out
 }
 
+// one canonical-ish frame or body as a history op (mut flag appended)
+func vC10GenHistOp(r *vRng) vSx {
+	mut := vI(r.intn(2))
+	raw := func(min int) vSx { return vB(r.bytes(min + r.pickInt(0, 1, 2, 7, 20, r.intn(40)))) }
+	switch r.intn(8) {
+	case 0, 1, 2: // Opus: the flag subsets change the header length, the payload length varies
+		tr := r.pickInt(0, 2, 4, 6, 8, 10, 12, 14)
+		rt, lv := 0, 0
+		if tr&4 != 0 {
+			rt = r.pickInt(8, 12, 16, 24, 48)
+		}
+		if tr&8 != 0 {
+			lv = r.intn(65536)
+		}
+		return vL(vZ(1), vI(13), vI(rt), vI(r.intn(2)), vI(r.intn(2)), vI(tr), vI(lv), raw(0), mut)
+	case 3: // AAC
+		return vL(vZ(1), vI(10), vI(r.intn(4)), vI(r.intn(2)), vI(r.intn(2)), vI(r.intn(2)), vZ(0), raw(0), mut)
+	case 4: // another audio format
+		fm := r.pickInt(0, 1, 2, 3, 4, 5, 6, 7, 8, 9, 11, 12, 14, 15)
+		return vL(vZ(1), vI(fm), vI(r.intn(4)), vI(r.intn(2)), vI(r.intn(2)), vZ(0), vZ(0), raw(1), mut)
+	case 5: // video
+		if r.chance(2, 3) {
+			return vL(vZ(2), vI(r.pickInt(7, 12)), vI(r.rng(1, 5)), vI(r.intn(3)), vZ(int64(r.intn(1<<24))), raw(0), mut)
+		}
+		return vL(vZ(2), vI(r.pickInt(2, 3, 4, 5, 6)), vI(r.rng(1, 5)), vZ(0), vZ(0), raw(4), mut)
+	case 6: // audio body to decode
+		b := r.bytes(r.pickInt(2, 3, 5, 9, 2+r.intn(40)))
+		b[0] = byte(r.pickInt(0xa0, 0xd0, 0xd0, 0x20)) | byte(r.intn(4))
+		b[1] = byte(r.intn(16))
+		return vL(vZ(3), vB(b), mut)
+	}
+	b := r.bytes(r.pickInt(5, 6, 9, 5+r.intn(40)))
+	b[0] = byte(r.rng(1, 5)<<4) | byte(r.pickInt(7, 12, 2))
+	return vL(vZ(4), vB(b), mut)
+}
+
+func vC10GenHistory(r *vRng) vSx {
+	ops := []vSx{vZ(6)}
+	for n := r.rng(2, 5); n > 0; n-- {
+		ops = append(ops, vC10GenHistOp(r))
+	}
+	return vLs(ops)
+}
+
 func vC10Gen(r *vRng) vSx {
+	if r.chance(1, 4) {
+		return vC10GenHistory(r)
+	}
 	u8 := func() int {
 		switch r.intn(4) {
 		case 0:
